@@ -268,6 +268,23 @@ def sh(cmd, cwd=None, timeout=3600):
     return p.returncode, p.stdout
 
 
+def lane_targets(lane):
+    """what a check has to build: the proof modules its audit file imports, and the driver -- NOT the whole library, so
+    that a proof obligation of another property that a source change breaks (a regenerated table) does not take this
+    property's check down with it"""
+    mods = []
+    try:
+        if lane.AUDIT:
+            import re
+            for ln in open(os.path.join(LEAN_DIR, lane.AUDIT), encoding='utf-8'):
+                m = re.match(r'^import\s+(\S+)', ln)
+                if m:
+                    mods.append(m.group(1))
+    except OSError:
+        pass
+    return (mods or ['CG']) + ['cgdriver']
+
+
 def build(targets, lane=None):
     """regenerate the source-derived tables and lake build, as ONE step serialised with a lock so that checks may
     run concurrently (also against different REPO trees during self-tests)."""
@@ -393,7 +410,7 @@ def run_check(prop, tier, seed, replay=None, jobs=None):
     machinery = []
 
     # 1-2. regenerate + build
-    rc, out, gen_changed, aud = build(['CG', 'cgdriver'], lane)
+    rc, out, gen_changed, aud = build(lane_targets(lane), lane)
     build_ok = rc == 0
     build_log = out[-3000:]
 
